@@ -1690,7 +1690,8 @@ def run(tier):
         dmap = check_config_cache(ck, facts, cls, sc, inl)
         derived = {m: (MGView(dv.fn), dexpr) for m, (dv, dexpr, df) in dmap.items()}
         # private helpers that are not part of the event model (extracted blocks) are inlined: body and CFG
-        views = {n: MGView(inl.inline(fns[n], want=not_modelled), derived=derived) for n in need}
+        # ... and a range-for over a small local table is the sequence of its iterations
+        views = {n: MGView(norm_c08.unroll_const_range_for(inl.inline(fns[n], want=not_modelled)), derived=derived) for n in need}
         events = {}
         for n, v in views.items():
             evs = []
